@@ -167,7 +167,7 @@ Lemma exec_body (s : st) m a0 acur aend acur' dm :
   bodym m = true -> astep acur m = Some (acur', dm) -> run_rel acur' aend ->
   exists s' cr o,
     exec_cmd s m = (s', cr, o) /\ keeps s s' /\ cache s' = cache s /\ uid_supply s' = uid_supply s /\
-    forallb devdoc o = true /\ final_events o = doc_events dm /\ stops o = [] /\
+    forallb devdoc o = true /\ final_events o = doc_events dm /\ rundocs o = [] /\
     match cr with
     | Done (RVal v) => (forall d z, v = VReading d z -> z = rdm m) -> BR (bundlers s') a0 acur' aend
     | Done (RExn _) => False
@@ -374,7 +374,7 @@ Lemma exec_head (s : st) m a0 acur acur' aend' dm cc :
     exec_cmd s m = (s', cr, o) /\
     ((exists v, cr = Done (RVal v)) \/ (cr = Susp KCkptSleep /\ mcmd m = CCheckpoint)) /\ keeps s s' /\
     (cache s' = Some [] \/ needs_fresh (mcmd m) = true /\ cache s' = cache s) /\ uid_supply s' = a_next acur' /\
-    forallb devdoc o = true /\ final_events o = doc_events dm /\ stops o = doc_stops dm /\
+    forallb devdoc o = true /\ final_events o = doc_events dm /\ rundocs o = doc_rundocs dm /\
     BR (bundlers s') acur' acur' aend'.
 Proof.
   intros HBR Hw0 Hwc Hh Hst Hrr Hu Hri Hc Hfr.
@@ -424,7 +424,7 @@ Proof.
     destruct (a_run acur) as [r|] eqn:Er; [discriminate|]. destruct (a_fresh acur); [|discriminate]. injection Hst as Ha Hd; subst acur' dm.
     unfold BR in HBR. rewrite Er in HBR. rewrite HBR, Hri. cbn [amem alookup].
     do 3 eexists. split; [reflexivity|]. split; [left; eexists; reflexivity|]. split; [keeps_tac|]. split; [right; split; reflexivity|]. split; [sb; rewrite Hu; reflexivity|].
-    split; [reflexivity|]. split; [cbn; reflexivity|]. split; [reflexivity|].
+    split; [reflexivity|]. split; [cbn; reflexivity|]. split; [cbn; rewrite Hu; reflexivity|].
     sb. rewrite HBR, Hrun, Hu. cbn [aset].
     unfold run_rel in Hrr. cbn [a_run] in Hrr. destruct (a_run aend') as [rend'|] eqn:Ee; [|contradiction].
     eapply BR_intro with (X := []) (Y := []); [reflexivity | reflexivity | reflexivity | exact Ee | reflexivity | | reflexivity | | ].
